@@ -19,6 +19,9 @@ type Target struct {
 	Spec func() (*tls.ClientHelloSpec, error)
 	// Edit, if non-nil, runs after BuildHandshakeState (documented edits).
 	Edit func(u *tls.UConn) error
+	// InspectFirst: call BuildHandshakeStateWithoutSession before the handshake (the
+	// documented way to look at the hello before a session is attached).
+	InspectFirst bool
 }
 
 func (t Target) Prepare() func(u *tls.UConn) error {
@@ -31,6 +34,12 @@ func (t Target) Prepare() func(u *tls.UConn) error {
 			if err := u.ApplyPreset(s); err != nil {
 				return err
 			}
+		}
+		if t.InspectFirst {
+			if err := u.BuildHandshakeStateWithoutSession(); err != nil {
+				return err
+			}
+			_ = u.HandshakeState.Hello.Raw
 		}
 		if t.Edit != nil {
 			if err := u.BuildHandshakeState(); err != nil {
